@@ -331,3 +331,5 @@ def run(ctx, out):
                 "independent Python statement of cp's mapping rule and a frame check; non-trivial = >=3 entries; distinct by case")
     run_walker_r0(ctx, out)
     run_copies(ctx, out)
+    import destmatrix
+    destmatrix.run(ctx, out, "C02", opts=["none", "backup"])
